@@ -228,6 +228,8 @@ fn collect_choice_labels_recursive(
         return;
     }
 
+    // The gather that the next gather of the chain is inside of, if it is entered.
+    let mut entered_gather_scope: Option<EmitScope> = None;
     let mut i = 0;
     while i < nodes.len() {
         match &nodes[i] {
@@ -301,8 +303,11 @@ fn collect_choice_labels_recursive(
                 level,
                 indent,
             } => {
-                labels.insert(label.clone(), format!("{}.{}", scope.path, label));
-                let sub_scope = scope.choice_branch(label);
+                // (a gather that follows a section without choices is inside the
+                // gather before it, see the emission of labelled gathers)
+                let parent_scope = entered_gather_scope.take().unwrap_or_else(|| scope.clone());
+                labels.insert(label.clone(), format!("{}.{}", parent_scope.path, label));
+                let sub_scope = parent_scope.choice_branch(label);
                 let mut child_index = 0;
                 if *indent > 0 {
                     collect_choice_labels_recursive(
@@ -332,6 +337,13 @@ fn collect_choice_labels_recursive(
                     labels,
                     &mut child_index,
                 );
+                let next_is_entered = matches!(
+                    nodes.get(body_end),
+                    Some(Node::GatherLabel { level: next_level, indent: 0, .. }) if next_level == level
+                ) && !gather_section_has_choice(&nodes[i + 1..body_end]);
+                if next_is_entered {
+                    entered_gather_scope = Some(sub_scope);
+                }
                 i = body_end;
             }
             _ => {
